@@ -6,11 +6,14 @@
 #include <cerrno>
 #include <cstring>
 #include <fcntl.h>
+#include <sys/mman.h>
 #include <sys/wait.h>
 #include <unistd.h>
 
 #include "libzwerg.h"
 #include "libzwerg-dw.h"
+
+int g_child_errfd = -1;
 
 void
 init_vocabularies ()
@@ -35,6 +38,7 @@ serve_one (plan const &p)
       return 2;
     }
   fflush (stdout);
+  g_child_errfd = memfd_create ("zsim-child-stderr", 0);
   pid_t pid = fork ();
   if (pid < 0)
     {
@@ -70,19 +74,49 @@ serve_one (plan const &p)
   // A child that died in the middle of a line must not corrupt the framing.
   fputs ("\n", stdout);
 
+  // What an abnormally ended child wrote to its stderr last (UBSan reports,
+  // assertion messages, terminate() messages).
+  if (g_child_errfd >= 0)
+    {
+      if (! (WIFEXITED (st) && WEXITSTATUS (st) == 0))
+	{
+	  off_t sz = lseek (g_child_errfd, 0, SEEK_END);
+	  off_t from = sz > 6000 ? sz - 6000 : 0;
+	  std::string tail;
+	  while (from < sz)
+	    {
+	      ssize_t n = pread (g_child_errfd, buf, sizeof buf, from);
+	      if (n <= 0)
+		break;
+	      tail.append (buf, n);
+	      from += n;
+	    }
+	  if (! tail.empty ())
+	    printf ("=stderr %s\n", hexenc (tail).c_str ());
+	}
+      close (g_child_errfd);
+      g_child_errfd = -1;
+    }
+
   if (char const *rp = getenv ("ZSIM_REPORT_PATH"))
     {
-      std::string path = std::string (rp) + "." + std::to_string (pid);
-      if (FILE *f = fopen (path.c_str (), "r"))
+      // ASan/LSan write to <rp>.<pid>; the UBSan runtime is a separate DSO
+      // with its own report file, <rp>.ub.<pid> (set through UBSAN_OPTIONS).
+      std::string log;
+      for (char const *infix: {".", ".ub."})
 	{
-	  std::string log;
-	  size_t n;
-	  while ((n = fread (buf, 1, sizeof buf, f)) > 0 && log.size () < (1 << 20))
-	    log.append (buf, n);
-	  fclose (f);
-	  unlink (path.c_str ());
-	  printf ("=log %s\n", hexenc (log).c_str ());
+	  std::string path = std::string (rp) + infix + std::to_string (pid);
+	  if (FILE *f = fopen (path.c_str (), "r"))
+	    {
+	      size_t n;
+	      while ((n = fread (buf, 1, sizeof buf, f)) > 0 && log.size () < (1 << 20))
+		log.append (buf, n);
+	      fclose (f);
+	      unlink (path.c_str ());
+	    }
 	}
+      if (! log.empty ())
+	printf ("=log %s\n", hexenc (log).c_str ());
     }
 
   printf ("=done %s exit=%d sig=%d\n", p.id.c_str (),
